@@ -15,12 +15,6 @@ def refsOf (pathOf : Kind → Nat → List Nat) : Out → List (List Nat)
   | .pieces ps => ps.map (refPath pathOf)
   | .joiner _ => [[]]
 
-/-- `substituteFinalPaths`: "if intermediateOutput.pieces == nil { return intermediateOutput.joiner }",
-otherwise the loop modelled by `Pieces.substitute` -/
-def finalContents (pathOf : Kind → Nat → List Nat) : Out → List Nat
-  | .pieces ps => substitute pathOf ps
-  | .joiner b => b
-
 theorem substitute_eq_zip (pathOf : Kind → Nat → List Nat) (ps : List Piece) :
     substitute pathOf ps
       = (List.zipWith (· ++ ·) (ps.map (·.data)) (ps.map (refPath pathOf))).flatten := by
@@ -38,5 +32,67 @@ theorem finalContents_eq_zip (pathOf : Kind → Nat → List Nat) (o : Out) :
   cases o with
   | pieces ps => exact substitute_eq_zip pathOf ps
   | joiner b => simp [finalContents, outData, refsOf]
+
+/-! ### the trailer as a function of the hashed modes -/
+
+def isCSS : ChunkRepr → Bool
+  | .js _ => false
+  | .css => true
+
+theorem comment_style (r r' : ChunkRepr) (h : isCSS r = isCSS r') :
+    commentPrefix r = commentPrefix r' ∧ commentSuffix r = commentSuffix r' := by
+  cases r <;> cases r' <;> simp_all [isCSS, commentPrefix, commentSuffix]
+
+/-- the link to the legal-comments file, from the hashed mode (`none`: no external legal comments) -/
+def legalLinkOf (m : Option Nat) (own : OwnPaths) (j : List Nat) : List Nat :=
+  if m = some 3 then
+    ensureNewlineAtEnd j ++ ascii "/*! For license information please see " ++ own.legalImportPath
+      ++ ascii " */\n"
+  else j
+
+/-- the source-map comment, from the hashed mode (`none`: the map has no content) -/
+def mapCommentOf (m : Option Nat) (pre suf : List Nat) (own : OwnPaths) (j : List Nat) : List Nat :=
+  if m = some 2 then
+    ensureNewlineAtEnd j ++ pre ++ ascii "# sourceMappingURL=" ++ own.mapEscapedPath ++ suf ++ [10]
+  else if m = some 1 ∨ m = some 4 then
+    ensureNewlineAtEnd j ++ pre ++ ascii "# sourceMappingURL=data:application/json;base64," ++ own.mapBase64
+      ++ suf ++ [10]
+  else j
+
+theorem addLegalLink_eq (ctx : Ctx) (c : Chunk) (own : OwnPaths) (j : List Nat) :
+    addLegalLink ctx c own j
+      = legalLinkOf (if c.externalLegalComments = [] then none else some ctx.legalMode) own j := by
+  unfold addLegalLink legalLinkOf
+  by_cases hL : c.externalLegalComments = []
+  · simp [hL]
+  · have : c.externalLegalComments.length > 0 := List.length_pos_iff.2 hL
+    simp [hL, this]
+
+theorem addSourceMapComment_eq (ctx : Ctx) (c : Chunk) (own : OwnPaths) (j : List Nat) :
+    addSourceMapComment ctx c own j
+      = mapCommentOf (if c.outputSourceMap.hasContent = true then some ctx.sourceMapMode else none)
+          (commentPrefix c.repr) (commentSuffix c.repr) own j := by
+  unfold addSourceMapComment mapCommentOf
+  by_cases hc : c.outputSourceMap.hasContent = true
+  · by_cases h0 : ctx.sourceMapMode = 0
+    · simp [hc, h0]
+    · simp only [hc, h0, ne_eq, not_false_eq_true, and_self, if_true, Option.some.injEq]
+  · simp [hc]
+
+/-- the chunk file as a function of the tuple, the comment style, the substituted paths and the strings
+derived from the chunk's own final path -/
+def fileOfTuple (t : Tuple) (pre suf : List Nat) (refs : List (List Nat)) (own : OwnPaths) : List Nat :=
+  mapCommentOf t.smMode pre suf own
+    (legalLinkOf t.legalMode own (List.zipWith (· ++ ·) t.data refs).flatten)
+
+theorem finalFile_eq (ctx : Ctx) (c : Chunk) (t : Tuple) (pathOf : Kind → Nat → List Nat) (own : OwnPaths)
+    (h : tupleOf ctx c = some t) :
+    finalFile ctx c pathOf own
+      = fileOfTuple t (commentPrefix c.repr) (commentSuffix c.repr) (refsOf pathOf c.out) own := by
+  unfold tupleOf at h
+  cases he : fileEntries ctx c <;> rw [he] at h <;> simp only [reduceCtorEq, Option.some.injEq] at h
+  subst h
+  unfold finalFile fileOfTuple
+  rw [addSourceMapComment_eq, addLegalLink_eq, finalContents_eq_zip]
 
 end EsbuildModel.IsoHash
